@@ -190,6 +190,7 @@ var specC19 = vstat.Spec[c19Case]{
 	Assumptions: []string{"the unsigned seqno field and cross-recipient replay of genuine messages are outside the adversary moves the property lists and are not asserted"},
 	Gen:         genC19,
 	Check:       checkC19,
+	Inflight:    true,
 }
 
 func TestC19(t *testing.T)       { vstat.Check(t, specC19) }
